@@ -25,7 +25,7 @@ func init() {
 		Assumptions: []string{"generic instantiations are not distinguished (the generic body is analysed once)", "container/list behaves as documented"},
 		Tech:        "static analysis: lock-state dataflow, structural pairing (must-pass-through both ways), guarded-by-condition and per-implementation Admit-populates-what-Access/Remove-index contract on the SSA of the generic bodies",
 		NeedU1:      true,
-		Rules:       []func(*Ctx){ruleC15Lock, ruleC15Bijection, ruleC15Bounded, ruleC15CallbackExactlyOnce, ruleC15AdmitRegisters, ruleC15NoReentry},
+		Rules:       []func(*Ctx){ruleC15Lock, ruleC15Bijection, ruleC15Bounded, ruleC15CallbackExactlyOnce, ruleC15AdmitRegisters, ruleC15RegistrationFollowsSegment, ruleC15ListEndsNonEmpty, ruleC15NoReentry},
 	})
 }
 
@@ -683,4 +683,175 @@ func reachableSync(cg *callGraph, start *ssa.Function) map[*ssa.Function]bool {
 		})
 	}
 	return seen
+}
+
+// ruleC15RegistrationFollowsSegment: tinyLFU keeps, per key, which segment list owns the item (c.keys[k].parent).
+// Every admission of an item into a segment (a sub-policy Admit called from a tinyLFU method) must travel with the map
+// update that registers that same list for the item; otherwise Access/Remove later address the wrong list.
+func ruleC15RegistrationFollowsSegment(c *Ctx) {
+	u := c.U1
+	c.rule("C15.registration-follows-segment", "in every method of tinyLFU each call of a segment list's Admit(item) travels (both directions, all paths) with c.keys[item.key] = entry{parent: that list}", 1)
+	n := 0
+	for _, f := range u.RepoFuncs {
+		if f.Signature.Recv() == nil || !typeIsNamed(f.Signature.Recv().Type(), pkgCache, "tinyLFU") {
+			continue
+		}
+		allInstrs(f, func(i ssa.Instruction) {
+			cc := callOf(i)
+			if cc == nil || methodNameOf(cc) != "Admit" {
+				return
+			}
+			if _, isCall := i.(*ssa.Call); !isCall {
+				return
+			}
+			args := callArgs(cc)
+			if len(args) != 2 {
+				return
+			}
+			n++
+			c.CallSites++
+			c.FuncsAnalysed[shortName(f)] = true
+			list, item := args[0], args[1]
+			construct := trimPkgDirs(shortName(f)) + "/segment-admit"
+			var reg ssa.Instruction
+			allInstrs(f, func(j ssa.Instruction) {
+				mu, ok := j.(*ssa.MapUpdate)
+				if !ok {
+					return
+				}
+				if _, fld, isF := fieldAccess(mu.Map); !isF || fld != "keys" {
+					return
+				}
+				if accessPath(mu.Key) != accessPath(item)+".key" {
+					return
+				}
+				// the stored entry's parent is the same list
+				fl := map[string]ssa.Value{}
+				if a := allocOf(mu.Value); a != nil {
+					fl = litFields(a)
+				} else if ld, isLd := mu.Value.(*ssa.UnOp); isLd {
+					fl = litFields(ld.X)
+				}
+				if p, has := fl["parent"]; has && (resolve(p) == resolve(list) || accessPath(p) == accessPath(list)) {
+					reg = j
+				}
+			})
+			ok := reg != nil && travelTogether(i, reg)
+			c.check(ok, construct, u.ipos(i), "registration of the item to this list travels with the admission", "an item is admitted to a segment list without (on the same paths) registering that list as its owner in c.keys: later Access/Remove go to the wrong list — ghost entries, missing or duplicate eviction callbacks, map larger than capacity")
+		})
+	}
+	if n == 0 {
+		c.bad("tinyLFU/segment-admits", "", "no segment admissions found in tinyLFU")
+	}
+}
+
+// ruleC15ListEndsNonEmpty: every (*list.List).Back()/Front() whose result is dereferenced, removed or moved must be
+// protected by a nil test of the result or by a strict `L.Len() > x` (x a capacity, non-negative) / `L.Len() != 0` test
+// of the same list. `Len() >= capacity` does not protect when the capacity is 0.
+func ruleC15ListEndsNonEmpty(c *Ctx) {
+	u := c.U1
+	c.rule("C15.list-ends-nonempty", "in pkg/cache every use (field access, Remove/Move*, Next/Prev) of a list.Back()/Front() result is dominated by a nil test of it or by a strict Len() > … / Len() != 0 test of the same list", 4)
+	for _, f := range u.RepoFuncs {
+		if f.Pkg == nil || f.Pkg.Pkg.Path() != pkgCache {
+			continue
+		}
+		allInstrs(f, func(i ssa.Instruction) {
+			cv, ok := i.(*ssa.Call)
+			if !ok {
+				return
+			}
+			g := cv.Call.StaticCallee()
+			if g == nil || (funcFullName(g) != "(*container/list.List).Back" && funcFullName(g) != "(*container/list.List).Front") {
+				return
+			}
+			listPath := accessPath(cv.Call.Args[0])
+			al := aliasClosure(cv, nil)
+			for v := range al {
+				refs := v.Referrers()
+				if refs == nil {
+					continue
+				}
+				for _, r := range *refs {
+					deref := false
+					switch y := r.(type) {
+					case *ssa.FieldAddr:
+						deref = y.X == v
+					case *ssa.Field:
+						deref = true
+					case ssa.CallInstruction:
+						if h := y.Common().StaticCallee(); h != nil && h.Pkg != nil && h.Pkg.Pkg.Path() == "container/list" {
+							deref = true
+						}
+					}
+					if !deref {
+						continue
+					}
+					c.CallSites++
+					c.FuncsAnalysed[shortName(f)] = true
+					construct := trimPkgDirs(shortName(f)) + "/" + g.Name() + "-use"
+					safe := listElemSafe(v, r.Block(), al, 0)
+					if !safe {
+						for _, fct := range factsAt(r.Block()) {
+							b, isB := fct.V.(*ssa.BinOp)
+							if !isB {
+								continue
+							}
+							isLen := func(x ssa.Value) bool {
+								lc, ok := resolve(x).(*ssa.Call)
+								return ok && lc.Call.StaticCallee() != nil && funcFullName(lc.Call.StaticCallee()) == "(*container/list.List).Len" && accessPath(lc.Call.Args[0]) == listPath
+							}
+							switch {
+							case b.Op == token.GTR && isLen(b.X) && fct.True,
+								b.Op == token.LSS && isLen(b.Y) && fct.True,
+								b.Op == token.LEQ && isLen(b.X) && !fct.True,
+								b.Op == token.GEQ && isLen(b.Y) && !fct.True,
+								b.Op == token.NEQ && isLen(b.X) && isConstInt(b.Y, 0) && fct.True,
+								b.Op == token.EQL && isLen(b.X) && isConstInt(b.Y, 0) && !fct.True:
+								safe = true
+							}
+						}
+					}
+					c.check(safe, construct, u.ipos(r), "protected by a nil test or a strict Len() > … test of the same list", "the end element of a list is used without a nil test or a strict non-emptiness test of that list (`Len() >= capacity` does not help when the capacity is 0): an operation sequence on a small cache panics with a nil dereference")
+				}
+			}
+		})
+	}
+}
+
+// listElemSafe: the list element v (derived from a Back()/Front() result, set al) is non-nil at block `at`: tested
+// directly, or a phi all of whose incoming values are safe on their edges (values not derived from Back/Front — freshly
+// pushed elements — are non-nil).
+func listElemSafe(v ssa.Value, at *ssa.BasicBlock, al valueSet, depth int) bool {
+	if depth > 6 {
+		return false
+	}
+	if knownNonNil(v, at) {
+		return true
+	}
+	phi, ok := v.(*ssa.Phi)
+	if !ok {
+		return false
+	}
+	for k, e := range phi.Edges {
+		if !al[e] && !al[strip(e)] {
+			continue // not an end-of-list lookup (e.g. the element returned by PushFront / InsertAfter)
+		}
+		if e == v {
+			continue
+		}
+		pred := phi.Block().Preds[k]
+		ok := listElemSafe(e, pred, al, depth+1)
+		if !ok {
+			ap := accessPath(e)
+			for _, fct := range edgeFacts(pred, phi.Block()) {
+				if x, isNil, isT := nilTest(fct); isT && !isNil && accessPath(x) == ap {
+					ok = true
+				}
+			}
+		}
+		if !ok {
+			return false
+		}
+	}
+	return true
 }
